@@ -1352,7 +1352,17 @@ class Twin(Job):
             # continue clone 1 with the same remaining inputs
             rest = self.xs[self.clone_at + 1:]
             cs.append(Case(self.mode, gen.render(self.e, self.mode), ops + ["W 1"] + xs_ops(self.mode, rest)))
+        # the same inputs, read only now and then ("calling last() any number of times between updates changes nothing" — also
+        # ZERO times: wave-6 seed C17f memoised last() in a Cell and forgot to clear the memo on one update path, so a view that
+        # had been polled answered differently from one that had not)
+        cs.append(Case(self.mode, gen.render(self.e, self.mode),
+                       [("X " if t in self.sparse_reads() else "U ") + enc(self.mode, x) for t, x in enumerate(self.xs)]))
         return cs
+
+    def sparse_reads(self):
+        rng = random.Random(self.noise_seed * 31 + 7)
+        n = len(self.xs)
+        return {t for t in range(n) if rng.random() < 0.3} | ({n - 1} if n else set())
 
     def decide(self, impl, rel, model):
         ops, marks = self.plan()
@@ -1367,6 +1377,11 @@ class Twin(Job):
             if m >= len(noisy) or k >= len(plain) or noisy[m] != plain[k]:
                 return dict(explanation="step %d: output differs once last() is called repeatedly / a clone is fed other inputs" % (k + 1),
                             expected=plain[k] if k < len(plain) else None, actual=noisy[m] if m < len(noisy) else None)
+        sparse = [l for l in impl[-1] if l[:1] in "SNP"]
+        for k, l in zip(sorted(self.sparse_reads()), sparse):
+            if k < len(plain) and l != plain[k]:
+                return dict(explanation="step %d: a view that is read after every update reports %s, the same view read only now and then reports %s"
+                            % (k + 1, plain[k], l), expected=plain[k], actual=l)
         if self.clone_at is not None:
             cont = impl[2][len(noisy):]
             exp = plain[self.clone_at + 1:]
